@@ -116,7 +116,7 @@ def gen_case(R, index, tier):
         elif w < 0.62:
             case = {"stratum": "seg/A-rot90", "seg": GG.arc(R, "rot-90")}
         elif w < 0.76:
-            case = {"stratum": "seg/A-mapped", "seg": GG.arc(R, R.choice(GG.ARC_STRATA)), "matrix": list(GT.affine(R, R.choice(["aniso", "rot-aniso", "shear", "general", "general-neg", "reflect"]))[1])}
+            case = {"stratum": "seg/A-mapped", "seg": GG.arc(R, R.choice(GG.ARC_STRATA)), "matrix": list(GT.affine(R, R.choice(["aniso", "rot-aniso", "aniso-rot", "shear", "general", "general-neg", "reflect"]))[1])}
         else:
             kind = "LQCA"[index % 4]
             spec, st = GG.segment(R, kind)
